@@ -200,3 +200,6 @@ fn u03_leb128_writer_matches_parser() {
         Err(_) => panic!("parser rejects writer output"),
     }
 }
+
+// (withdrawn: a harness through Change::parse_following_header makes kani-compiler 0.68 panic at intrinsics.rs:243
+// (`compare_bytes`), like every harness that reaches ActorId ordering; no obligation is offered for the change-chunk body.)
